@@ -82,3 +82,73 @@ Lemma delete_wrong_lines_refuted :
     (S "# t" ++ [nlc] ++ [nlc] ++ S "- 240101#01 see 240101#05 there" ++ [nlc] ++ S "- 240101#05 the note" ++ [nlc]) =
   Some (S "# t" ++ [nlc] ++ [nlc] ++ S "- 240101#05 the note" ++ [nlc]).
 Proof. vm_compute. reflexivity. Qed.
+
+(* ---- add: WHERE the note goes. The lines of a page split into paragraphs at blank lines; the note is written in
+   place of the blank line that ends the LAST paragraph holding an item, i.e. directly below that paragraph, and
+   the blank line is written back after it - every other line keeps its place. ---- *)
+Lemma ins_go_no_items : forall B i s,
+  forallb (fun l => negb (starts_item l)) B = true -> ins_go B i false s = s.
+Proof.
+  induction B as [|l r IH]; intros i s H; [reflexivity|].
+  cbn [forallb] in H. apply andb_prop in H. destruct H as [Hl Hr]. apply negb_true_iff in Hl.
+  cbn [ins_go]. rewrite Hl. cbn [orb andb]. apply IH. exact Hr.
+Qed.
+Lemma ins_go_paragraph : forall P rest i n s,
+  forallb (fun l => negb (is_blank_line l)) P = true ->
+  ins_go (P ++ rest) i n s = ins_go rest (i + length P) (n || existsb starts_item P) s.
+Proof.
+  induction P as [|l r IH]; intros rest i n s H.
+  - cbn [app length existsb]. now rewrite Nat.add_0_r, orb_false_r.
+  - cbn [forallb] in H. apply andb_prop in H. destruct H as [Hl Hr]. apply negb_true_iff in Hl.
+    cbn [app ins_go]. rewrite Hl, andb_false_r. rewrite IH by exact Hr.
+    cbn [length existsb]. rewrite orb_assoc. f_equal. lia.
+Qed.
+Lemma ins_go_prefix : forall A R i n s, exists n' s', ins_go (A ++ R) i n s = ins_go R (i + length A) n' s'.
+Proof.
+  induction A as [|l r IH]; intros R i n s.
+  - exists n, s. cbn [app length]. now rewrite Nat.add_0_r.
+  - cbn [app ins_go length]. destruct ((n || starts_item l) && is_blank_line l).
+    + destruct (IH R (Datatypes.S i) false i) as (n' & s' & E). exists n', s'. rewrite E. f_equal. lia.
+    + destruct (IH R (Datatypes.S i) (n || starts_item l) s) as (n' & s' & E). exists n', s'. rewrite E. f_equal. lia.
+Qed.
+
+Theorem ins_index_last_item_paragraph A P b B :
+  forallb (fun l => negb (is_blank_line l)) P = true -> existsb starts_item P = true ->
+  is_blank_line b = true -> forallb (fun l => negb (starts_item l)) B = true ->
+  ins_index (A ++ P ++ b :: B) = length A + length P.
+Proof.
+  intros HP Hit Hb HB. unfold ins_index.
+  destruct (ins_go_prefix A (P ++ b :: B) 0 false (length (A ++ P ++ b :: B) - 1)) as (n' & s' & E).
+  rewrite E. rewrite ins_go_paragraph by exact HP. rewrite Hit, orb_true_r.
+  cbn [ins_go]. rewrite Hb. cbn [orb andb]. rewrite ins_go_no_items by exact HB. lia.
+Qed.
+
+Lemma split_line_nl text : forallb (fun c => negb (ceqb c nlc)) text = true -> split_on nlc (text ++ [nlc]) = [text; []].
+Proof.
+  induction text as [|c t IH]; intros H.
+  - cbn. now rewrite ceqb_refl.
+  - cbn [forallb] in H. apply andb_prop in H. destruct H as [Hc Ht]. apply negb_true_iff in Hc.
+    cbn [app split_on]. rewrite Hc, (IH Ht). reflexivity.
+Qed.
+
+Theorem add_below_last_item_paragraph text A P b B :
+  forallb (fun c => negb (ceqb c nlc)) text = true ->
+  forallb (fun l => negb (is_blank_line l)) P = true -> existsb starts_item P = true ->
+  is_blank_line b = true -> forallb (fun l => negb (starts_item l)) B = true ->
+  add_lines (text ++ [nlc]) (A ++ P ++ b :: B) = A ++ P ++ text :: [] :: B.
+Proof.
+  intros Ht HP Hit Hb HB. unfold add_lines. rewrite (ins_index_last_item_paragraph A P b B) by assumption.
+  rewrite split_line_nl by exact Ht.
+  replace (A ++ P ++ b :: B) with ((A ++ P) ++ b :: B) by (now rewrite <- app_assoc).
+  rewrite <- app_length.
+  rewrite firstn_app, firstn_all, Nat.sub_diag. cbn [firstn]. rewrite app_nil_r.
+  replace (Datatypes.S (length (A ++ P))) with (length (A ++ P) + 1) by lia.
+  rewrite skipn_app, skipn_all2 by lia.
+  replace (length (A ++ P) + 1 - length (A ++ P)) with 1 by lia. cbn [skipn app].
+  now rewrite <- app_assoc.
+Qed.
+
+(* a page without any item: the note goes in place of the last line (blank when the page ends with a newline) *)
+Theorem ins_index_no_items ls :
+  forallb (fun l => negb (starts_item l)) ls = true -> ins_index ls = length ls - 1.
+Proof. intros H. unfold ins_index. now apply ins_go_no_items. Qed.
